@@ -167,8 +167,11 @@ def _add_zids(zdir: Path, page: Page) -> None:
             zid = zid_manager.get_next(note.create_date)
             note.zid = zid
             old_body = note.body.lstrip()
-            if zdt.is_long_date_spec(old_body.split(" ")[0]):
-                old_body = " ".join(old_body.split(" ")[1:])
+            # The create date can be the only word on the note's first line.
+            first_word = old_body.split(maxsplit=1)[0] if old_body else ""
+            if zdt.is_long_date_spec(first_word):
+                old_body = old_body[len(first_word) :]
+                old_body = old_body[1:] if old_body[:1] == " " else old_body
             note.body = f"{zid} {old_body}"
             new_notes.append(note)
     if new_notes:
